@@ -132,12 +132,14 @@ pub fn run(prop: &str, cases: &[String]) -> RunOut {
             }
             "ctor" => {
                 let (s, w) = (b(t[t.len() - 2]), b(t[t.len() - 1]));
+                // sibling conversions (by value / by reference) must store the same information
+                let sibling: std::cell::RefCell<Option<(ExtraAccountMeta, &'static str)>> = std::cell::RefCell::new(None);
                 let r: Option<Result<ExtraAccountMeta, ProgramError>> = guarded(|| match t[1] {
                     "key" => ExtraAccountMeta::new_with_pubkey(&key_of(t[2]), s, w),
                     "meta" => {
                         let am = AccountMeta { pubkey: key_of(t[2]), is_signer: s, is_writable: w };
                         let by_ref = ExtraAccountMeta::from(&am);
-                        assert_eq!(bytemuck::bytes_of(&by_ref), bytemuck::bytes_of(&ExtraAccountMeta::from(am.clone())), "From<AccountMeta> by value differs from by reference");
+                        *sibling.borrow_mut() = Some((ExtraAccountMeta::from(am.clone()), "From<AccountMeta> by value"));
                         // and back (exercised for coverage; the property does not speak about this direction)
                         let _ = AccountMeta::try_from(&by_ref);
                         Ok(by_ref)
@@ -146,7 +148,7 @@ pub fn run(prop: &str, cases: &[String]) -> RunOut {
                         let mut o = vec![Owned { key: key_of(t[2]), owner: Pubkey::default(), lamports: 0, data: vec![], s, w }];
                         let i = infos_of(&mut o);
                         let by_ref = ExtraAccountMeta::from(&i[0]);
-                        assert_eq!(bytemuck::bytes_of(&by_ref), bytemuck::bytes_of(&ExtraAccountMeta::from(i[0].clone())), "From<AccountInfo> by value differs from by reference");
+                        *sibling.borrow_mut() = Some((ExtraAccountMeta::from(i[0].clone()), "From<AccountInfo> by value"));
                         Ok(by_ref)
                     }
                     "seeds" => ExtraAccountMeta::new_with_seeds(&parse_seeds(t[2]), s, w),
@@ -158,6 +160,11 @@ pub fn run(prop: &str, cases: &[String]) -> RunOut {
                     None => err = Some("constructor panicked".into()),
                     Some(Ok(m)) => {
                         // a config built from a seed list / meta stores exactly that information
+                        if let Some((sb, what)) = sibling.borrow().as_ref() {
+                            if bool::from(sb.is_signer) != s || bool::from(sb.is_writable) != w || sb.discriminator != 0 || sb.address_config != key_of(t[2]).to_bytes() {
+                                err = Some(format!("{what} does not store the key and flags it was given"));
+                            }
+                        }
                         if bool::from(m.is_signer) != s || bool::from(m.is_writable) != w || m.is_signer.0 > 1 || m.is_writable.0 > 1 { err = Some("constructor did not store the flags".into()); }
                         match t[1] {
                             "key" | "meta" | "info" => if m.discriminator != 0 || m.address_config != key_of(t[2]).to_bytes() { err = Some("fixed-address config does not store the key".into()); },
@@ -195,7 +202,7 @@ pub fn run(prop: &str, cases: &[String]) -> RunOut {
                 let cfgs: Option<Vec<ExtraAccountMeta>> = guarded(|| with_tag!(tag, do_read, &stored).ok()).flatten();
                 if t[0] != "addcpi" {
                     let r = guarded(|| with_tag!(tag, do_addix, &mut ix_off, &fetch, &stored));
-                    off_s = match &r { None => "panic".into(), Some(Ok(())) => format!("ok {}", fmt_metas(&ix_off.accounts)), Some(Err(e)) => format!("err | {}", err_code(e)) };
+                    off_s = match &r { None => "panic".into(), Some(Ok(())) => format!("ok {}", fmt_metas(&ix_off.accounts)), Some(Err(e)) => format!("err left={} | {}", fmt_metas(&ix_off.accounts), err_code(e)) };
                     if r.is_none() { err = Some("add_to_instruction panicked".into()); }
                 }
                 let mut cpi_keys = String::new();
@@ -205,27 +212,34 @@ pub fn run(prop: &str, cases: &[String]) -> RunOut {
                     let n0 = infos.len();
                     let r = guarded(|| with_tag!(tag, do_addcpi, &mut ix_cpi, &mut infos, &stored, &pool));
                     cpi_keys = if infos.is_empty() { "-".into() } else { infos.iter().map(|i| hex(i.key.as_ref())).collect::<Vec<_>>().join(",") };
-                    cpi_s = match &r { None => "panic".into(), Some(Ok(())) => format!("ok {} ; {}", fmt_metas(&ix_cpi.accounts), cpi_keys), Some(Err(e)) => format!("err | {}", err_code(e)) };
+                    cpi_s = match &r { None => "panic".into(), Some(Ok(())) => format!("ok {} ; {}", fmt_metas(&ix_cpi.accounts), cpi_keys), Some(Err(e)) => format!("err left={} ; {} | {}", fmt_metas(&ix_cpi.accounts), cpi_keys, err_code(e)) };
                     if r.is_none() { err = Some("add_to_cpi_instruction panicked".into()); }
-                    if let Some(Ok(())) = r {
-                        // lockstep: one appended info per appended meta, same key
-                        let app_m = &ix_cpi.accounts[metas.len()..];
-                        let app_i = &infos[n0..];
-                        if app_m.len() != app_i.len() || app_m.iter().zip(app_i).any(|(m, i)| m.pubkey != *i.key) { err = Some("CPI helper: appended infos are not in lockstep with the appended metas".into()); }
+                    if let Some(_) = r {
+                        // lockstep: one appended info per appended meta, same key — also for what a failed call has appended
+                        // before it returned its error (a caller that handles the error still holds both vectors)
+                        let app_m = &ix_cpi.accounts[metas.len().min(ix_cpi.accounts.len())..];
+                        let app_i = &infos[n0.min(infos.len())..];
+                        if app_m.len() != app_i.len() || app_m.iter().zip(app_i).any(|(m, i)| m.pubkey != *i.key) {
+                            err = Some(format!("CPI helper{}: appended infos are not in lockstep with the appended metas", if matches!(r, Some(Ok(()))) { "" } else { " (after returning an error)" }));
+                        }
                     }
                 }
                 // C06 / C08 clauses on whichever result succeeded
                 for (res, ixr) in [(&off_s, &ix_off), (&cpi_s, &ix_cpi)] {
-                    if res.starts_with("ok") {
-                        if ixr.accounts[..metas.len()] != metas[..] { err = Some("pre-existing metas were changed".into()); }
+                    // "every account appended to an instruction by the helpers": also those a failing call appended before it
+                    // returned its error; the privilege clauses are checked on them against the configs they come from
+                    let failed_call = res.starts_with("err");
+                    if res.starts_with("ok") || failed_call {
+                        if ixr.accounts.len() < metas.len() || ixr.accounts[..metas.len()] != metas[..] { err = Some("pre-existing metas were changed".into()); continue; }
                         if let Some(cf) = &cfgs {
                             let app = &ixr.accounts[metas.len()..];
-                            if app.len() != cf.len() { err = Some("not exactly one appended meta per stored config".into()); }
+                            if !failed_call && app.len() != cf.len() { err = Some("not exactly one appended meta per stored config".into()); }
+                            if failed_call && app.len() > cf.len() { err = Some("a failed call appended more metas than there are stored configs".into()); }
                             for (j, (m, c)) in app.iter().zip(cf.iter()).enumerate() {
                                 let before = &ixr.accounts[..metas.len() + j];
                                 let orig = &ixr.accounts[..metas.len()];
                                 let cfg_w = c.is_writable.0 != 0;
-                                if m.is_signer { err = Some("an appended account is marked signer".into()); }
+                                if m.is_signer { err = Some(format!("an appended account is marked signer{}", if failed_call { " (left behind by a call that returned an error)" } else { "" })); }
                                 if m.is_writable && !cfg_w { err = Some("an appended account is writable although its config is not".into()); }
                                 let present_ro_only = before.iter().any(|x| x.pubkey == m.pubkey) && !before.iter().any(|x| x.pubkey == m.pubkey && x.is_writable);
                                 let _ = orig;
@@ -250,7 +264,42 @@ pub fn run(prop: &str, cases: &[String]) -> RunOut {
                 let n_app = cfgs.as_ref().map_or(0, |c| c.len());
                 if n_app >= 2 || (n_app >= 1 && off_s.starts_with("ok") && ix_off.accounts[metas.len()..].iter().any(|m| metas.iter().any(|x| x.pubkey == m.pubkey))) { out.stats.nontrivial_case(line); out.stats.sample(line); }
                 out.stats.bump(&format!("{}:{}{}", t[0], if off_s.starts_with("ok") { "O" } else { "o" }, if cpi_s.starts_with("ok") { "C" } else { "c" }));
-                match t[0] { "addix" => off_s, "addcpi" => cpi_s, _ => format!("OFF {off_s} CPI {cpi_s}") }
+                match t[0] { "addix" => off_s, "addcpi" => cpi_s, _ => {
+                    // the error codes (fidelity notes) go behind both observations, so that the CPI half is compared too
+                    let (om, on) = off_s.split_once(" | ").unwrap_or((&off_s, ""));
+                    let (cm, cn) = cpi_s.split_once(" | ").unwrap_or((&cpi_s, ""));
+                    if on.is_empty() && cn.is_empty() { format!("OFF {om} CPI {cm}") } else { format!("OFF {om} CPI {cm} | {on},{cn}") }
+                } }
+            }
+            "checkh" => {
+                // checkh <tag> <stored> <new cfgs> <prog> <ixdata> <infos>: an `update` (that fails when the new list does not fit
+                // the exact-size account, and then must leave the stored list alone) followed by validation against the list
+                // that is stored THEN — the old one after a rejected update, the new one after an accepted one
+                let tag: usize = t[1].parse().unwrap(); let mut buf = unhex(t[2]); let newc = parse_cfgs(t[3]); let prog = key_of(t[4]); let ixdata = unhex(t[5]);
+                let old: Option<Vec<ExtraAccountMeta>> = guarded(|| with_tag!(tag, do_read, &buf).ok()).flatten();
+                let up = guarded(|| with_tag!(tag, do_update, &mut buf[..], &newc));
+                let mut owned = parse_owned(t[6]);
+                let accts: Vec<(Pubkey, Option<Vec<u8>>)> = owned.iter().map(|o| (o.key, Some(o.data.clone()))).collect();
+                let provided: Vec<AccountMeta> = owned.iter().map(|o| AccountMeta { pubkey: o.key, is_signer: o.s, is_writable: o.w }).collect();
+                let infos = infos_of(&mut owned);
+                let r = guarded(|| with_tag!(tag, do_check, &infos, &ixdata, &prog, &buf));
+                if r.is_none() || up.is_none() { err = Some("update / check_account_infos panicked".into()); }
+                let intended: Option<Vec<ExtraAccountMeta>> = if matches!(up, Some(Ok(()))) { Some(newc.clone()) } else { old };
+                let expect_ok = match &intended {
+                    None => false,
+                    Some(cf) => cf.len() <= provided.len() && cf.iter().enumerate().all(|(i, c)| {
+                        match spec_resolve(bytemuck::bytes_of(c), &ixdata, &prog, &accts) {
+                            Some((k, s, w)) => { let p = &provided[provided.len() - cf.len() + i]; p.pubkey == k && p.is_signer == s && p.is_writable == w }
+                            None => false,
+                        }
+                    }),
+                };
+                if let Some(rr) = &r { if rr.is_ok() != expect_ok { err = Some(format!("after {} update, check_account_infos {} although the trailing accounts {} the configs that are stored", if matches!(up, Some(Ok(()))) { "an accepted" } else { "a rejected" }, if rr.is_ok() { "accepted" } else { "rejected" }, if expect_ok { "match" } else { "do not match" })); } }
+                if intended.as_ref().map_or(false, |c| !c.is_empty()) { out.stats.nontrivial_case(line); }
+                out.stats.bump(&format!("checkh:{}:{}", if matches!(up, Some(Ok(()))) { "up-ok" } else { "up-err" }, match &r { Some(Ok(())) => "ok", Some(Err(_)) => "err", None => "panic" }));
+                let (u, c) = (unit_res(&up), unit_res(&r));
+                let (um, un) = u.split_once(" | ").unwrap_or((&u, "")); let (cm, cn) = c.split_once(" | ").unwrap_or((&c, ""));
+                if un.is_empty() && cn.is_empty() { format!("up={um} check={cm}") } else { format!("up={um} check={cm} | {un},{cn}") }
             }
             "check" => {
                 // check <tag> <stored> <prog> <ixdata> <infos>
@@ -594,6 +643,18 @@ pub fn generate_c07(tier: &str, rng: &mut Rng) -> Vec<String> {
             // shorter than the config list
             let k = rng.below(sc.cfgs.len() as u64 + 1) as usize; let m: Vec<_> = accts.iter().take(k.min(accts.len())).cloned().collect(); v.push(format!("{base} {}", fmt(&m)));
         }
+        if rng.chance(1, 3) && !sc.cfgs.is_empty() {
+            // a rejected update (one config too many for the exact-size account) must leave the validation as it was; an
+            // accepted one (same number of configs: the list now stored is the new one) changes it accordingly
+            let more: Vec<Vec<u8>> = sc.cfgs.iter().cloned().chain(std::iter::once(cfg_bytes(0, &sc.world.keys[0], 0, 1))).collect();
+            let same: Vec<Vec<u8>> = { let mut c = sc.cfgs.clone(); let i = rng.below(c.len() as u64) as usize; c[i] = cfg_bytes(0, &sc.world.keys[rng.below(6) as usize], rng.below(2) as u8, rng.below(2) as u8); c };
+            let cf = |l: &Vec<Vec<u8>>| l.iter().map(|c| hex(c)).collect::<Vec<_>>().join(",");
+            for newc in [&more, &same] {
+                v.push(format!("checkh {} {} {} {} {} {}", sc.tag, hex(&sc.stored), cf(newc), hex(&sc.prog), hex(&sc.ixdata), fmt(&accts)));
+                if accts.len() > n0 { let mut m = accts.clone(); let i = n0 + rng.below((accts.len() - n0) as u64) as usize; m[i].0 = Pubkey::new_from_array(rng.key()); v.push(format!("checkh {} {} {} {} {} {}", sc.tag, hex(&sc.stored), cf(newc), hex(&sc.prog), hex(&sc.ixdata), fmt(&m))); }
+            }
+            v.push(format!("checkh {} {} {} {} {} -", sc.tag, hex(&sc.stored), cf(&more), hex(&sc.prog), hex(&sc.ixdata)));
+        }
         if rng.chance(1, 10) {
             // malformed stored bytes
             let bad = match rng.below(3) { 0 => vec![1u8, 2, 3], 1 => { let mut s2 = sc.stored.clone(); let l = s2.len(); s2.truncate(rng.below(l as u64 + 1) as usize); s2 }, _ => rng.bytes(40) };
@@ -613,13 +674,30 @@ pub fn generate_c12(tier: &str, rng: &mut Rng) -> Vec<String> {
         let k = rng.range(1, 4) as usize; // instruction discriminators
         let lens: Vec<usize> = (0..k).map(|_| rng.below(7) as usize).collect();
         let exact: usize = lens.iter().map(|l| ExtraAccountMetaList::size_of(*l).unwrap()).sum();
-        let size = match rng.below(6) { 0 => exact.saturating_sub(1), 1 => exact, 2 => exact + rng.below(12) as usize, _ => exact + rng.range(12, 120) as usize };
+        let mut size = match rng.below(6) { 0 => exact.saturating_sub(1), 1 => exact, 2 => exact + rng.below(12) as usize, _ => exact + rng.range(12, 120) as usize };
+        let tight_extra = if rng.chance(1, 2) { rng.range(27, 34) } else { rng.below(9) } as usize;
+        let tight = k >= 2 && rng.chance(1, 4);
+        if tight { size = exact + tight_extra; }
         let start = if rng.chance(1, 15) { match rng.below(2) { 0 => vec![1u8, 2, 3], _ => rng.bytes(size.max(1)) } } else { vec![0u8; size] };
         v.push(format!("B {case} metalist {}", hex(&start)));
         let mut tags: Vec<usize> = (0..8).collect();
         for i in (1..8).rev() { let j = rng.below(i as u64 + 1) as usize; tags.swap(i, j); }
         let cfglist = |rng: &mut Rng, n: usize| -> String { if n == 0 { "-".into() } else { (0..n).map(|_| hex(&if rng.chance(1, 2) { let mut c = [0u8; 35]; for x in c.iter_mut() { *x = rng.byte(); } c.to_vec() } else { rand_cfg(rng, &world, 4, 10) })).collect::<Vec<_>>().join(",") } };
-        for (i, l) in lens.iter().enumerate() { v.push(format!("O init {} {}", tags[i], cfglist(rng, *l))); }
+        // one history in four is aimed at the room check of a growing update of a list that is NOT the last one:
+        // the account is 1..=8 (or 27..=34) bytes short of one more config, the last list ends in zero bytes (flags
+        // 0/0, or an empty list) half of the time, and the first operations grow an earlier list by exactly one config
+        let zero_tail = |s: String| -> String { if s == "-" { s } else { let mut s = s; let n = s.len(); s.replace_range(n - 4.., "0000"); s } };
+        for (i, l) in lens.iter().enumerate() {
+            let mut c = cfglist(rng, *l);
+            if tight && i + 1 == k && rng.chance(1, 2) { c = zero_tail(c); }
+            v.push(format!("O init {} {}", tags[i], c));
+        }
+        if tight {
+            let which = rng.below(k as u64 - 1) as usize;
+            v.push(format!("O update {} {}", tags[which], cfglist(rng, lens[which] + 1)));
+            v.push(format!("O update {} {}", tags[which], cfglist(rng, lens[which])));
+            if lens[which] > 0 { v.push(format!("O update {} {}", tags[which], cfglist(rng, lens[which] - 1))); v.push(format!("O update {} {}", tags[which], cfglist(rng, lens[which] + 1))); }
+        }
         let nops = rng.range(2, 8);
         for _ in 0..nops {
             let tg = tags[rng.below((k + 1).min(8) as u64) as usize];
